@@ -12,13 +12,14 @@ import (
 func init() { registry["C03"] = checkC03 }
 
 func checkC03(c *Ctx, r *Report) {
-	r.Explain = "Decides structural necessary conditions of 'effective access = admin grants ∪ grants of current documents': (R1) a committed write invalidates exactly the principals whose grants changed — the success return of the write path is dominated by MarkPrincipalsChanged, whose arguments derive from the changed-principal lists computed by applying the sync function's access and role grants to the document; (R2) only the write path and resync apply grants to a document, and on the write path grants are applied after the sync function has been (re-)evaluated for the revision that ends up current — no evaluation is reachable after grants were applied; (R3) invalidation reaches the authenticator for every changed principal (channels for each name in the first list, roles for each name in the second), and an invalidation marker, once set, is persisted rather than cancelled; (R4) a principal whose computed channels or roles are missing/invalidated is recomputed when loaded, the recomputation's failures propagate (a principal is never returned with stale or empty sets), and the recomputed sets include the explicit (admin) grants and the public channel; (R5) the sync function's channel, access-grant and role-grant outputs keep their identity on the way to the document (traced positionally through the wrappers — the two grant maps have the same type, so a swap compiles); (R6) the sub-document fast path of channel invalidation selects the per-collection slot exactly as IsDefaultCollection does, for all valuations. Not decided: that the recomputation query returns the right grants, order independence, role inheritance arithmetic."
+	r.Explain = "Decides structural necessary conditions of 'effective access = admin grants ∪ grants of current documents': (R1) a committed write invalidates exactly the principals whose grants changed — the success return of the write path is dominated by MarkPrincipalsChanged, whose arguments derive from the changed-principal lists computed by applying the sync function's access and role grants to the document; (R2) only the write path and resync apply grants to a document, and on the write path grants are applied after the sync function has been (re-)evaluated for the revision that ends up current — no evaluation is reachable after grants were applied; (R3) invalidation reaches the authenticator for every changed principal (channels for each name in the first list, roles for each name in the second), and an invalidation marker, once set, is persisted rather than cancelled; (R4) a principal whose computed channels or roles are missing/invalidated is recomputed when loaded, the recomputation's failures propagate (a principal is never returned with stale or empty sets), and the recomputed sets include the explicit (admin) grants and the public channel; (R5) the sync function's channel, access-grant and role-grant outputs keep their identity on the way to the document (traced positionally through the wrappers — the two grant maps have the same type, so a swap compiles); (R6) the sub-document fast path of channel invalidation selects the per-collection slot exactly as IsDefaultCollection does, for all valuations; (R7) a purge, which writes no revision, invalidates the grantees of the purged document itself. Not decided: that the recomputation query returns the right grants, order independence, role inheritance arithmetic."
 	c03R1(c, r)
 	c03R2(c, r)
 	c03R3(c, r)
 	c03R4(c, r)
 	c03R5(c, r)
 	c03R6(c, r)
+	c03R7(c, r)
 }
 
 func c03R1(c *Ctx, r *Report) {
@@ -458,4 +459,59 @@ func c03R6(c *Ctx, r *Report) {
 	}
 	r.Check("C03-R6", "fn=base.IsDefaultCollection = (scope and collection are the defaults)", c.Pos(isDef.Pos()), bad == "" || !strings.HasPrefix(bad, "IsDefaultCollection("), "holds for all 4 valuations", bad)
 	r.Check("C03-R6", "fn=(*auth.Authenticator).InvalidateChannels subdoc-slot agrees-with=IsDefaultCollection", c.Pos(pathPhi.Pos()), bad == "", fmt.Sprintf("agrees for all %d valuations", n), "the sub-document fast path writes the invalidation marker to a slot the principal's readers do not consult for that collection: the cached channel set of that collection is never invalidated and grants/revocations from its documents never reach the principal: "+bad)
+}
+
+// C03-R7: a purge removes a document without writing a revision, so the write path's invalidation never runs for it: Purge itself must
+// invalidate the principals the purged document granted access to, on every successful exit.
+func c03R7(c *Ctx, r *Report) {
+	r.Rule("C03-R7", "E2 pathrules (must-pass-through, helpers followed)", "every successful exit of Purge passes MarkPrincipalsChanged (directly or through a helper), fed from the purged document's Access and RoleAccess grants", 2)
+	fn := c.Func("(*db.DatabaseCollectionWithUser).Purge")
+	if fn == nil {
+		r.Fail("C03-R7", "anchor (*db.DatabaseCollectionWithUser).Purge", "-", "function not found")
+		return
+	}
+	isMark := func(in ssa.Instruction) bool {
+		ci, ok := in.(ssa.CallInstruction)
+		return ok && c.CalleeName(ci) == "(*db.DatabaseCollectionWithUser).MarkPrincipalsChanged"
+	}
+	marks := c.EffectSites(fn, isMark, 2)
+	leak := false
+	for _, ret := range Returns(fn) {
+		if !isNilConst(unwrapLoadFree(ret.Results[0])) {
+			continue
+		}
+		if ReachEntry(fn, ret, NewAvoid().AddInstr(marks...)) {
+			leak = true
+		}
+	}
+	r.Check("C03-R7", "fn=(*db.DatabaseCollectionWithUser).Purge success-exit passes=MarkPrincipalsChanged", c.Pos(fn.Pos()), len(marks) > 0 && !leak,
+		"every successful purge invalidates the grantees", "a document can be purged without invalidating the users and roles its access()/role() calls granted: they keep the channels and roles of a document that no longer exists")
+	// provenance of the invalidated names
+	accF := c.Field("db.SyncData", "Access")
+	roleF := c.Field("db.SyncData", "RoleAccess")
+	okA, okR := false, false
+	hosts := []*ssa.Function{fn}
+	for _, m := range marks {
+		if ci, ok := m.(ssa.CallInstruction); ok {
+			if cal := ci.Common().StaticCallee(); cal != nil && !isMark(m) {
+				hosts = append(hosts, cal)
+			}
+		}
+	}
+	for _, h := range hosts {
+		for _, call := range c.Calls(h, false, nameIs("(*db.DatabaseCollectionWithUser).MarkPrincipalsChanged")) {
+			a := callArgs(call)
+			if len(a) < 6 {
+				continue
+			}
+			if DependsOn(a[3], func(v ssa.Value) bool { f, _ := fieldRead(v); return f != nil && f == accF }) {
+				okA = true
+			}
+			if DependsOn(a[4], func(v ssa.Value) bool { f, _ := fieldRead(v); return f != nil && f == roleF }) {
+				okR = true
+			}
+		}
+	}
+	r.Check("C03-R7", "fn=(*db.DatabaseCollectionWithUser).Purge invalidated-names from=doc.Access,doc.RoleAccess", c.Pos(fn.Pos()), okA && okR,
+		"the grantees of the purged document's access and role grants are invalidated", fmt.Sprintf("the principals invalidated by a purge do not come from the purged document's grants (access=%v roles=%v)", okA, okR))
 }
